@@ -33,6 +33,18 @@ def _bootstrap():
 _SCRATCH = None
 
 
+def _sweep_stale(max_age_s=6 * 3600):
+    """Remove scratch directories left behind by killed runs."""
+    import glob
+    import time
+    for d in glob.glob(os.path.join(tempfile.gettempdir(), "sasverif-*")):
+        try:
+            if time.time() - os.path.getmtime(d) > max_age_s:
+                shutil.rmtree(d, ignore_errors=True)
+        except OSError:
+            pass
+
+
 def scratch():
     """Per-process-tree scratch directory outside /repo and /verif."""
     global _SCRATCH
@@ -41,6 +53,7 @@ def scratch():
         if env and os.path.isdir(env):
             _SCRATCH = env
         else:
+            _sweep_stale()
             _SCRATCH = tempfile.mkdtemp(prefix="sasverif-")
             os.environ["VERIF_SCRATCH"] = _SCRATCH
             owner = os.getpid()
